@@ -145,13 +145,46 @@ void splinetable<Alloc>::fit(const ::ndsparse& data,
 			sidelen *= nsplines[i];
 		}
 		penalty=cholmod_l_spzeros(sidelen, sidelen, 1, CHOLMOD_REAL, &cholmod_state);
+		//every term is built for B-spline coefficients; the change of basis of
+		//a monotonic dimension is applied to the sum below
 		for(uint32_t i = 0; i < ndim; i++){
 			penalty = add_penalty_term(nsplines.get(), &this->knots[i][0], ndim,
 			                           i, order[i],
 			                           (penaltyOrder.size()>1?penaltyOrder[i]:penaltyOrder[0]),
 			                           (smoothing.size()>1?smoothing[i]:smoothing[0]),
-			                           i==monodim, penalty,
+			                           false, penalty,
 			                           &cholmod_state);
+		}
+		if(monodim!=no_monodim && cholmod_l_nnz(penalty, &cholmod_state)>0){
+			//The monotonic dimension is fit in a basis of T-splines (running sums
+			//of B-splines): b = K t with K = I x ... x T x ... x I, T the lower
+			//triangular matrix of ones in the slot of that dimension. A penalty
+			//b'Pb on the B-spline coefficients is t'(K'PK)t on the T-spline
+			//ones, for the terms of all dimensions, not only the monotonic one.
+			cholmod_sparse* K=NULL;
+			for(uint32_t i = 0; i < ndim; i++){
+				cholmod_sparse* factor=(i==monodim ?
+				    cholmod_tril(nsplines[i], &cholmod_state) :
+				    cholmod_l_speye(nsplines[i], nsplines[i], CHOLMOD_REAL, &cholmod_state));
+				if(!K)
+					K=factor;
+				else{
+					cholmod_sparse* product=kronecker_product(K, factor, &cholmod_state);
+					cholmod_l_free_sparse(&K, &cholmod_state);
+					cholmod_l_free_sparse(&factor, &cholmod_state);
+					K=product;
+				}
+			}
+			cholmod_sparse* full=cholmod_l_copy(penalty, 0, 1, &cholmod_state);
+			cholmod_sparse* Kt=cholmod_l_transpose(K, 1, &cholmod_state);
+			cholmod_sparse* KtP=cholmod_l_ssmult(Kt, full, 0, 1, 0, &cholmod_state);
+			cholmod_sparse* KtPK=cholmod_l_ssmult(KtP, K, 0, 1, 1, &cholmod_state);
+			cholmod_l_free_sparse(&KtP, &cholmod_state);
+			cholmod_l_free_sparse(&Kt, &cholmod_state);
+			cholmod_l_free_sparse(&full, &cholmod_state);
+			cholmod_l_free_sparse(&K, &cholmod_state);
+			cholmod_l_free_sparse(&penalty, &cholmod_state);
+			penalty=KtPK;
 		}
 	}
 	
